@@ -96,6 +96,14 @@ def exact_counts(fracs, C):
     return out if sum(out) == C else None
 
 
+def tie_free(scores):
+    """no two equal scores in a row, and a unique maximum in every column (torch leaves ties unspecified)"""
+    if any(len(set(r)) != len(r) for r in scores):
+        return False
+    return all(sorted((row[c] for row in scores), reverse=True)[:2].count(max(row[c] for row in scores)) == 1
+               for c in range(len(scores[0])))
+
+
 def assignment_of(matrix):
     """per channel: index of its single 1, -1 if the column is all zero, -2 if not a valid column"""
     P, C = len(matrix), len(matrix[0]) if matrix else 0
@@ -248,6 +256,16 @@ def _gen_spec(rng, quick, idx):
     # and what happened between the last forward pass and the call
     spec['history'] = {'hard_ctor': rng.random() < 0.5, 'mode': rng.choice(('eval', 'eval', 'train')),
                        'pre': rng.choice(PRE)}
+    # constructor options under which the coefficients the refinement reads are not the arg-max of alpha,
+    # and a topology in which two layers share one weight quantizer (parallel branches that are summed)
+    r = rng.random()
+    if r < 0.08:
+        spec['history']['option'] = 'disable_sampling'
+    elif r < 0.16:
+        spec['history']['option'] = 'gumbel'
+        spec['history']['mode'] = 'train'
+    elif r < 0.30 and len(layers) >= 2:
+        spec['residual'] = rng.randrange(1, len(layers))     # convs[i](x) + shorts[i](x), shortcut 1x1
     return spec
 
 
@@ -293,15 +311,21 @@ def _build(spec, alphas=None, twin=False):
         def __init__(self):
             super().__init__()
             self.convs = nn.ModuleList()
+            self.shorts = nn.ModuleDict()
             cin = 3
-            for c, k in layers:
+            for i, (c, k) in enumerate(layers):
                 self.convs.append(nn.Conv2d(cin, c, k, padding=k // 2))
+                if spec.get('residual') == i:
+                    self.shorts[str(i)] = nn.Conv2d(cin, c, 1)
                 cin = c
             self.fc = nn.Linear(cin * hw * hw, 4) if spec['linear'] else None
 
         def forward(self, x):
-            for c in self.convs:
-                x = F.relu(c(x))
+            for i, c in enumerate(self.convs):
+                if str(i) in self.shorts:
+                    x = F.relu(c(x) + self.shorts[str(i)](x))
+                else:
+                    x = F.relu(c(x))
             if self.fc is not None:
                 x = self.fc(x.flatten(1))
             return x
@@ -311,18 +335,24 @@ def _build(spec, alphas=None, twin=False):
     m = MPS(Net(), input_shape=(3, hw, hw), cost={'ne16': ne16_latency},
             w_search_type=MPSType.PER_CHANNEL,
             qinfo=get_default_qinfo(tuple(spec['wp']), (8,)),
-            hard_softmax=bool(hist and hist['hard_ctor']))
+            hard_softmax=bool(hist and hist['hard_ctor']),
+            gumbel_softmax=bool(hist and not twin and hist.get('option') == 'gumbel'),
+            disable_sampling=bool(hist and not twin and hist.get('option') == 'disable_sampling'))
     rng = random.Random(spec['seed'])
     rng0 = random.Random(spec['seed'] ^ 0x5A5A5A)
     used, other = {}, {}
     params = [(n[:-len('.w_mps_quantizer.alpha')], p) for n, p in sorted(m.named_nas_parameters(), key=lambda t: t[0])
               if n.endswith('w_mps_quantizer.alpha')]
+    first = {}
     for lname, p in params:
         if alphas is not None and lname in alphas:
             used[lname] = alphas[lname]
         else:
             used[lname] = _gen_alpha(rng, spec['alpha_kind'], p.shape[0], p.shape[1])
         other[lname] = _gen_alpha(rng0, spec['alpha_kind'], p.shape[0], p.shape[1])
+        if id(p) in first:                      # one parameter under two names (shared weight quantizer)
+            used[lname], other[lname] = used[first[id(p)]], other[first[id(p)]]
+        first.setdefault(id(p), lname)
 
     def write(values):
         with torch.no_grad():
@@ -392,6 +422,7 @@ def _run_e2e(spec, alphas=None):
             rec['order'].append(lname)
         L['passed_frac'].append([float(t) for t in arr])
         L['costs'].append(float(r))
+        L['qid'] = id(layer.w_mps_quantizer)
         state['lname'] = lname
         state['args'][lname] = (model, layer, cost_fn_map, lname, node)
         return r
@@ -425,7 +456,15 @@ def _run_e2e(spec, alphas=None):
     rec['alphas'] = used
     if err is None:
         rec['after'] = _w_summary(m)
-        rec['cost_after'] = float(m.get_cost('ne16').detach())
+        if (spec.get('history') or {}).get('option'):
+            # the model's own coefficients are noisy / frozen: cost of the arg-max assignment on a twin
+            now = {n[:-len('.w_mps_quantizer.alpha')]: p.detach().tolist() for n, p in m.named_nas_parameters()
+                   if n.endswith('w_mps_quantizer.alpha')}
+            tw, _ = _build(spec, now, twin=True)
+            rec['cost_after'] = float(tw.get_cost('ne16').detach())
+            del tw
+        else:
+            rec['cost_after'] = float(m.get_cost('ne16').detach())
         with torch.no_grad():
             for lname, args in state['args'].items():
                 layer = args[1]
@@ -504,7 +543,11 @@ def _e2e_failures(spec, rec):
     Classes (decidable from the failing layer), in order of precedence:
       stale-counts              the search did not start from the arg-max counts of the current alpha
                                 (theta_alpha not refreshed before the search)
+                                (key by known cause if the constructor option is disable_sampling, or
+                                gumbel_softmax in train mode; else per clause, no known cause)
       float-residue             chosen counts are not whole channels summing to C
+      shared-weight-quantizer   the layer shares its weight quantizer with another layer (parallel
+                                branches): each layer is refined on its own, the last one wins
       precisions-not-ascending  the count-level search itself went wrong (chosen counts are not an
                                 upward move of the old ones / cost more) and the tuple is not ascending
       search-*                  the same with an ascending tuple (no known cause)
@@ -521,6 +564,10 @@ def _e2e_failures(spec, rec):
     prints_ok = bool(rec.get('printed_reported')) or all(
         [round(v) for v in L['chosen']] == [sum(1 for x in rec['before'][k] if x == p) for p in L['precs']]
         for k, L in rec['layers'].items() if 'chosen' in L)
+    option = (spec.get('history') or {}).get('option')
+    stale_key = {'disable_sampling': 'C20:refine:stale-counts:disable_sampling',
+                 'gumbel': 'C20:refine:stale-counts:gumbel-train'}.get(option)
+    qids = [L.get('qid') for L in rec['layers'].values() if 'chosen' in L]
     for lname in rec['order']:
         L = rec['layers'][lname]
         if 'chosen' not in L:
@@ -528,9 +575,10 @@ def _e2e_failures(spec, rec):
         precs = L['precs']
         b, a = rec['before'][lname], rec['after'][lname]
         cl = _layer_classes(L, b, a)
+        cl['shared'] = qids.count(L.get('qid')) > 1
         out_m = [[int(v) if float(v).is_integer() else v for v in r] for r in L['out']]
         # the reassignment call itself (clause 2 of the property)
-        f = reassign_failure(cl['trunc'], L['scores'], out_m)
+        f = reassign_failure(cl['trunc'], L['scores'], out_m) if tie_free(L['scores']) else None
         if f and cl['integral']:
             out.append((f[0], 'layer %s: %s' % (lname, f[1]), lname))
         # was the returned matrix applied to this layer?
@@ -538,16 +586,18 @@ def _e2e_failures(spec, rec):
         expect_after = [precs[x] if x >= 0 else precs[0] for x in asg]
         applied = expect_after == a
         if not applied:
-            out.append(('C20:refine:matrix-not-applied',
+            out.append(('C20:refine:shared-weight-quantizer' if cl['shared'] else 'C20:refine:matrix-not-applied',
                         'layer %s: precisions after the call are not those of the matrix returned by the '
                         'reassignment for this layer' % lname, lname))
         # clause: no channel lower than before
         lowered = [c for c in range(len(b)) if a[c] < b[c]]
         if lowered:
             if not cl['fresh']:
-                key = 'C20:refine:demotes:stale-counts'
+                key = stale_key or 'C20:refine:demotes:stale-counts'
             elif not cl['integral']:
                 key = 'C20:refine:float-residue:demotes'
+            elif cl['shared']:
+                key = 'C20:refine:shared-weight-quantizer'
             elif not cl['dominates']:
                 key = ('C20:refine:demotes:search-moved-down' if cl['ascending']
                        else 'C20:refine:precisions-not-ascending:demotes')
@@ -572,7 +622,7 @@ def _e2e_failures(spec, rec):
         handed = [round(v) for v in L['chosen']]
         target = reported if reported is not None else L['chosen']
         if not cl['fresh'] and w_after != target:
-            out.append(('C20:refine:counts:stale-counts',
+            out.append((stale_key or 'C20:refine:counts:stale-counts',
                         'layer %s precisions %s: the search started from counts %s, the arg-max counts of the '
                         'current alpha are %s; counts after %s, chosen %s'
                         % (lname, precs, exact_counts(L['passed_frac'][0], L['C']) or L['passed_frac'][0],
@@ -587,6 +637,8 @@ def _e2e_failures(spec, rec):
                 key = None                      # already reported above
             elif not cl['integral']:
                 key = 'C20:refine:float-residue:counts'
+            elif cl['shared']:
+                key = 'C20:refine:shared-weight-quantizer'
             elif reported is not None and handed != reported:
                 key = None                      # already reported above
             elif not applied:
@@ -605,9 +657,11 @@ def _e2e_failures(spec, rec):
     if rec['cost_after'] > rec['cost_before']:
         bad_search = [(ln, cl) for (ln, cl, _, _) in rose if not cl['search_cost_ok']]
         if any(not cl['fresh'] for (_, cl, _, _) in rose):
-            key = 'C20:refine:cost-raised:stale-counts'
+            key = stale_key or 'C20:refine:cost-raised:stale-counts'
         elif any(not cl['integral'] for (_, cl, _, _) in rose):
             key = 'C20:refine:float-residue:cost-raised'
+        elif any(cl['shared'] for (_, cl, _, _) in rose):
+            key = 'C20:refine:shared-weight-quantizer'
         elif bad_search:
             key = ('C20:refine:cost-raised:search-chose-costlier' if all(cl['ascending'] for (_, cl) in bad_search)
                    else 'C20:refine:precisions-not-ascending:cost-raised')
@@ -722,7 +776,7 @@ def run(chk):
             continue
         for lname in rec['order']:
             L = rec['layers'][lname]
-            if 'chosen' in L and is_integral(L['chosen'], L['C']) and L['C'] <= 64:
+            if 'chosen' in L and is_integral(L['chosen'], L['C']) and L['C'] <= 64 and tie_free(L['scores']):
                 e2e_reassign.append((spec, lname, [int(v) for v in L['chosen']],
                                      [[int(v) for v in r] for r in L['scores']],
                                      [[int(v) if float(v).is_integer() else v for v in r] for r in L['out']]))
